@@ -70,9 +70,13 @@ Judge(rec, R) ==
       X     == ProjFile(rec.relaxed)
       W     == ProjFile(rec.wrapped)
       want  == Displaced(X, R.dLine, R.dCol, lay.wrap.embed, rec.base)
-      found == /\ rec.relaxed.err = "" /\ rec.relaxed.panic = ""
-               /\ Len(X) = Len(R.baseRules)
-               /\ \A i \in DOMAIN X : X[i].type = R.baseRules[i].type /\ X[i].name = R.baseRules[i].name /\ X[i].err = ""
+      \* binding: the parser finds in the unwrapped document the rules the layout wrote - judged on the strict
+      \* result for a rule file (relaxed /= strict is then the `modes` verdict), on the relaxed one for a bare list
+      ref   == IF lay.base = "doc" THEN rec.strict ELSE rec.relaxed
+      RP    == ProjFile(ref)
+      found == /\ ref.err = "" /\ ref.panic = ""
+               /\ Len(RP) = Len(R.baseRules)
+               /\ \A i \in DOMAIN RP : RP[i].type = R.baseRules[i].type /\ RP[i].name = R.baseRules[i].name /\ RP[i].err = ""
   IN
   /\ IF LineT(R.lines) = rec.lines /\ LineT(R.baseLines) = rec.base /\ found THEN TRUE
      ELSE Emit("UNEXP", rec.id, [what |-> "render/rules", shape |-> WrapShape(lay)])
